@@ -75,6 +75,7 @@ Definition as_request (s : sx) : option request :=
       match as_list_of as_bytes pon, as_frame cols typed with
       | Some pon, Some fr => Some (Append sreq pon fr) | _, _ => None end
     else None
+  | SL [SB k; x] => if is_sym "merge" k then option_map Merge (as_bool x) else None
   | SL [SB k; x; y] =>
     if is_sym "overwrite" k then option_map Overwrite (as_frame x y) else
     if is_sym "read" k then
